@@ -138,6 +138,7 @@ std::vector<std::string> trace_tail(std::size_t n);
 void partition(std::uint32_t host_a, std::uint32_t host_b, bool blocked);  // both directions
 // a driver may aim the after-unlock preemptions (Knobs::deschedule_after_unlock_per_65536) at one operation: rate and longest sleep from now on
 void set_deschedule_after_unlock(std::uint32_t per_65536, std::int64_t max_ns);
+void set_deschedule(std::uint32_t per_65536, std::int64_t max_ns);  // the same for Knobs::deschedule_per_65536 (any scheduling point)
 void set_host_unreachable_fast(bool fast);  // partitioned connect: EHOSTUNREACH now vs ETIMEDOUT later
 // resolve table for getaddrinfo: name -> list of (family, address bytes)
 void dns_set(const std::string& name, const std::vector<std::string>& numeric_addrs);
